@@ -539,7 +539,7 @@ fn run_results(prop: &str, ctx: &Ctx, rep: &mut Report) {
         return;
     }
     crate::gen_syntax::set_allow_block(false);
-    let n = ctx.budget(2_400, 120_000);
+    let n = ctx.budget(16_000, 240_000);
     let mut stats = TypeStats { responses: 0, inhabitants: 0, features: BTreeSet::new(), targets: 0 };
     let mut feature_counts: BTreeMap<&'static str, u64> = BTreeMap::new();
     for case in 0..n {
@@ -744,7 +744,7 @@ pub fn run_c09(ctx: &Ctx, rep: &mut Report) {
         return;
     }
     crate::gen_syntax::set_allow_block(false);
-    let n = ctx.budget(3_000, 150_000);
+    let n = ctx.budget(24_000, 300_000);
     let mut stats = (0u64, 0u64);
     for case in 0..n {
         let mut rng = ctx.rng("case", case);
